@@ -319,7 +319,34 @@ def C13():
         replayers={"services/grouping_service.py::": R.replay_grouping}, design_ref="4/C13, A18")
 
 
-PROPERTIES = {"C13": C13, "C01": C01, "C02": C02, "C05": C05, "C07": C07, "C09": C09, "C14": C14, "C15": C15, "C18": C18, "C04": C04, "C06": C06, "C08": C08, "C10": C10, "C12": C12, "C16": C16, "C19": C19}
+def C20():
+    from contracts.strwidth import UNITS, LEMMAS, TABLES, BOUNDED
+    return Property(
+        "C20", units=[ContractUnit(u) for u in UNITS] + LEMMAS + TABLES + BOUNDED, level="other",
+        technique="postcondition on the real get_string_width: result = unit conversion of Pillow's getlength for the font file of the number/name; "
+                  "ValueError only for unsupported font/unit; lemma: conversions are positive scalings, so every metric fact transfers from Pillow's "
+                  "G; G's facts themselves by a bounded audit (labelled bounded)",
+        trusted_base=[SOLVERS, ENGINE, "Pillow/FreeType getlength is a function of (font file, size, text) (assumed); its metric facts are NOT proved: bounded audit only"],
+        assumptions=["machine arithmetic treated as mathematical (exact unit conversions hold over the reals)"],
+        replayers={}, design_ref="4/C20, A23")
+
+
+def C11():
+    from contracts.textconv import UNITS, TABLES, BOUNDED
+    from contracts.row import ConvertSpecialChars
+    from contracts.attributes import EncodeRows
+    return Property(
+        "C11", units=[ContractUnit(u) for u in UNITS] + [ContractUnit(ConvertSpecialChars()), ContractUnit(EncodeRows())] + TABLES + BOUNDED, level="other",
+        technique="gating and dispatch contracts on the real convert_text_content / _convert_single_command / _convert_special_chars (convert off = "
+                  "verbatim + escaping; per-cell binding of text_convert); the real tables (ordered literal mapping, 682 symbols, token pattern, "
+                  "component defaults) evaluated exhaustively; bounded residual: real pipeline vs an independent reference converter over commands x templates",
+        trusted_base=[SOLVERS, ENGINE, "str.replace / re.sub implement left-to-right non-overlapping replacement (assumed, L5); the LaTeX pass as a whole is an uninterpreted function in the proofs"],
+        assumptions=["token language: the real pattern string is compared with the documented one (string equality, not language equivalence)",
+                     "_encode_text (.iloc(i, 0)) and encode_spanning_row (text_convert default False) bindings are not yet under contract in this check"],
+        replayers={}, design_ref="4/C11")
+
+
+PROPERTIES = {"C11": C11, "C20": C20, "C13": C13, "C01": C01, "C02": C02, "C05": C05, "C07": C07, "C09": C09, "C14": C14, "C15": C15, "C18": C18, "C04": C04, "C06": C06, "C08": C08, "C10": C10, "C12": C12, "C16": C16, "C19": C19}
 
 # ---- texts for MANIFEST.json (tools/gen_manifest.py) ------------------------------------------------------
 MANIFEST_TEXT = {
@@ -385,6 +412,14 @@ MANIFEST_TEXT = {
         "note": "Decode rule and concatenation homomorphisms are the trusted mathematical base; raw \\ { } and control characters are outside "
                 "the domain; text-bearing call sites other than the escaping function itself are named as not yet under contract.",
     },
+    "C11": {
+        "text": "Proved on the real code: conversion off returns the text verbatim (then only character escaping), conversion on applies the "
+                "literal chain then the LaTeX pass; each cell's convert flag is text_convert at that cell; command lookup uses the whole token and "
+                "is the identity on a miss. Exhaustive over the real tables: the ordered 8-entry literal mapping, all 682 symbols, the token "
+                "pattern, the per-component defaults. Residual, bounded: the real pipeline equals an independent reference converter on commands x "
+                "13 context templates (150+ commands quick, all 682 thorough).",
+        "note": "Level 'other' (proof of gating/tables + bounded residual). Known finding: '>=' / '<=' leave the delimiter space of the intermediate token.",
+    },
     "C12": {
         "text": "Proof that get_rtf_color_index and generate_rtf_color_table resolve against the same sorted list of used colours: a returned "
                 "index r >= 1 satisfies S[r-1] == colour and the table's entry r is rtf(S[r-1]); '' and black give 0; the table is empty "
@@ -399,6 +434,14 @@ MANIFEST_TEXT = {
                 "on exactly the page-start rows and leaves everything else as suppressed; one-column sorting validation returns iff every run start "
                 "is a value not seen before and raises ValueError otherwise; fresh run starts imply contiguity (lemma).",
         "note": "Relative to the modelled polars expression semantics (bounded audit planned); the page-start computation is named as not yet under contract.",
+    },
+    "C20": {
+        "text": "Proved for all texts, sizes, dpi and both ways of naming a font: the returned width is the px/in/mm conversion of one Pillow "
+                "measurement on the font file mapped to that font, a number and its name select the same file, only unsupported fonts or units "
+                "raise (ValueError); conversions are positive scalings so 0-for-empty, non-negativity, monotonicity under append, scaling and "
+                "monospace facts hold for the result iff they hold for Pillow's getlength. Those Pillow facts are checked by a seeded bounded audit "
+                "on the real fonts (bounded, not counted as proof).",
+        "note": "Level 'other': wrapper proved, font metrics assumed + bounded audit (400 quick / 8000 thorough cases).",
     },
     "C14": {
         "text": "Purity as a frame property: all store and mutator sites reachable from rtf_encode (enumerated from the real AST on every run) "
